@@ -1,4 +1,5 @@
 import HdVerif.Proofs.Ann
+import HdVerif.Proofs.AnnTie
 /-! # C18  Bulk annotations return the coordinates and measurements stored
 
 Coordinates and measurement values are opaque cells `α` (`finite` = numpy's `isfinite`, `cast` = the
@@ -523,6 +524,35 @@ theorem group_lookup_by_uid (gs : List GroupInfo) (u : String) :
 /-- neither number nor uid: TypeError -/
 theorem group_lookup_no_key (gs : List GroupInfo) : getGroup gs none none = .error .type :=
   getGroup_none gs
+
+/-! ## bridges: hand-written pieces of the model use exactly the expressions of the current source -/
+
+/-- the LongPrimitivePointIndexList of the model is `concatenate([array([f]), (cumsum(spans) + c)[:-k]])` with the
+literals `f`, `c`, `k` regenerated from `AnnotationGroup.__init__` -/
+theorem tie_index_list_construction (s0 : Int) (spans : List Int) :
+    indexListFrom indexListBase (s0 :: spans) = sourceIndexList (s0 :: spans) :=
+  indexList_is_source_expression s0 spans
+
+/-- the `+ c` of `Measurements.__init__` and the `- c` of `Measurements.get_values` (both regenerated) agree, the model
+writes with the first and reads with the second -/
+theorem tie_measurement_offsets {β : Type} (cast32 : β → β) (vals : List (Option β)) (m : MeasEnc β) (il : List Int)
+    (hm : m.indices = some il) :
+    measReadOffset = measIndexBase ∧
+    (encodeMeas cast32 vals).indices =
+      (if vals.any Option.isNone then some ((positions 0 vals).map (fun (i : Nat) => (i : Int) + measIndexBase)) else none) ∧
+    (∀ (n : Nat) (k : Int), measIndexGuard true (il.length : Int) (n : Int) (m.values.length : Int) = .ok k →
+      getValues m n = assignAll n ((il.map (fun i => i - measReadOffset)).zip m.values) (List.replicate n none)) ∧
+    (∀ (n : Nat) (e : ErrKind), measIndexGuard true (il.length : Int) (n : Int) (m.values.length : Int) = .error e →
+      getValues m n = .error e) :=
+  measurement_offsets_are_source β cast32 vals m il hm
+
+/-- the SOP class constructor accepts a list of group numbers iff its regenerated loop body (`Gen.sopGroupCheck`)
+succeeds at every position 0, 1, … -/
+theorem tie_sop_numbering (numbers : List Int) : sopAcceptsNumbers numbers = sopLoop 0 numbers :=
+  sopAcceptsNumbers_is_source_loop numbers
+
+example : sourceIndexList [6, 8, 4] = [1, 7, 15] ∧ sopLoop 0 [1, 2, 3] = true ∧ sopLoop 0 [1, 3] = false ∧
+    sopGroupCheck 1 true 3 = .error .value := by decide
 
 /-! ## non-vacuity -/
 
